@@ -454,8 +454,25 @@ def rule_dc(ctx):
         recv = norm(call.func.value) if isinstance(call.func, ast.Attribute) else ""
         okext = False
         root = recv.split(".")[0]
-        exts = [d for d in g.nodes if d.kind == "loop" and d.var and "extensions" in norm(d.expr)]
-        okext = any(isinstance(a0, ast.Name) and norm(d.expr) == a0.id + ".extensions" for d in exts)
+        # flow-insensitive slice of the receiver: through assignments, for-loop variables and comprehensions
+        want = (a0.id + ".extensions") if isinstance(a0, ast.Name) else None
+        names, seen_n, exprs = {root}, set(), []
+        while names - seen_n:
+            cur = (names - seen_n).pop()
+            seen_n.add(cur)
+            for d in g.nodes:
+                if d.kind == "stmt" and isinstance(d.ast, ast.Assign) and any(
+                        isinstance(x, ast.Name) and x.id == cur for t in d.ast.targets for x in ast.walk(t)):
+                    exprs.append(d.ast.value)
+                elif d.kind == "loop" and isinstance(d.ast, ast.For) and any(
+                        isinstance(x, ast.Name) and x.id == cur for x in ast.walk(d.ast.target)):
+                    exprs.append(d.ast.iter)
+            for e_ in exprs:
+                for x in ast.walk(e_):
+                    if isinstance(x, ast.Name) and isinstance(x.ctx, ast.Load):
+                        names.add(x.id)
+        okext = want is not None and any(attr_chain(x) == want for e_ in exprs for x in ast.walk(e_)
+                                         if isinstance(x, ast.Attribute))
         ctx.check(R, ok and okdef and okext, fi.qname, "delegated credential verified against the end-entity entry",
                   "the delegated credential is not verified against certificate_list[0] (the end-entity "
                   "certificate whose key must have signed it), or the gate is not effective", fi.loc(n.ast))
